@@ -3,6 +3,10 @@
 package route
 
 import (
+	"bytes"
+	"net/http"
+	"net/url"
+
 	"github.com/fabiolb/fabio/internal/vp"
 )
 
@@ -53,4 +57,73 @@ func VPH_C02_settable() {
 	SetTable(t2)
 	vp.Assert(len(GetTable()) == 2, "new-table-replaces-old-completely")
 	vp.Assert(GetTable()["a"] == nil, "no-mixture-with-previous-table")
+}
+
+func vpC02Chars(label, set string, max int) string {
+	n := vp.Choice(label+"-len", max+1)
+	for i := 0; i < max; i++ {
+		if n == i {
+			return vp.Chars(label, set, i)
+		}
+	}
+	return vp.Chars(label, set, max)
+}
+
+func vpC02Pick(label string, n int) int {
+	c := vp.Choice(label, n)
+	for i := 0; i < n-1; i++ {
+		if c == i {
+			return i
+		}
+	}
+	return n - 1
+}
+
+// VPH_C02_text_nocrash: route configuration text with arbitrary source, destination and weight
+// tokens (malformed globs and URLs, ports, wildcards, escapes) either yields a table or an error;
+// it never panics, and a table that was accepted answers a lookup without panicking.
+func VPH_C02_text_nocrash()       { vpC02Text(false) }
+func VPH_C02_weighttext_nocrash() { vpC02Text(true) }
+
+func vpC02Text(weightMode bool) {
+	// the slot ring is filled only for usable weights (VPH_C02_weights_nocrash, C04): cut before it
+	vp.CutAt("for _, s := range slots {")
+	src, dst, w := "foo.com/", "http://a:1/", ""
+	if weightMode {
+		w = vpC02Chars("weight", "0-9.eEinfaN+-", vp.Param("W"))
+	} else {
+		src = vpC02Chars("src", "a-zA-Z.:/*[]{}\\?", vp.Param("SRC"))
+		dst = vpC02Chars("dst", "a-z:/%[]#?", vp.Param("DST"))
+	}
+	tail := []string{"", " tags \"a,b\"", " opts \"strip=/x proto=https\"", " opts \"allow=ip:1.2.3.4/8\""}[vpC02Pick("tail", 4)]
+	text := "route add svc " + src + " " + dst
+	if w != "" {
+		text += " weight " + w
+	}
+	text += tail
+	switch vpC02Pick("second", 4) {
+	case 1:
+		text += "\nroute del svc"
+	case 2:
+		text += "\nroute weight svc " + src + " weight 0.5"
+	case 3:
+		text += "\nroute add svc2 " + src + " http://b:1/"
+	}
+	t, err := NewTable(bytes.NewBufferString(text))
+	if err != nil {
+		vp.Cover("rejected")
+		vp.Assert(t == nil, "error-means-no-table")
+		return
+	}
+	vp.Cover("accepted")
+	vp.Assert(t != nil, "no-error-means-a-table")
+	req := &http.Request{Host: "foo.com", URL: &url.URL{Path: "/x"}, Header: http.Header{}}
+	pick := func(r *Route) *Target {
+		if len(r.wTargets) == 0 {
+			return nil
+		}
+		return r.wTargets[0]
+	}
+	t.Lookup(req, "", pick, Matcher["prefix"], NewGlobCache(4), vp.Bool("glob-disabled"))
+	t.Lookup(req, "", pick, Matcher["glob"], NewGlobCache(4), false)
 }
